@@ -208,11 +208,17 @@ def synth_log(rng, core, table, fault=None):
             data = ("\n".join(lines)).encode()
     elif fault == "non_utf8":
         data, exp = b"\xff\xfe using random seed 12\n" + data, None
+    elif fault == "blank_first_line":
+        # the line the seed is read from is empty / whitespace only (a log that starts with a blank line,
+        # or was truncated to one): for rocket the seed cannot be read -> must be flagged, never fatal
+        pre = rng.choice([b"\n", b"   \n", b" \t \n", b"\r\n"])
+        data = pre + (data if rng.random() < .7 else b"")
+        exp = None if core == "rocket" else "unknown"
     return data, sa, ra, exp
 
 
 LOG_FAULTS = ["no_start", "no_ret", "truncated", "garbage", "empty", "absent", "bad_seed", "unknown_mnemonic",
-              "non_utf8"]
+              "non_utf8", "blank_first_line"]
 
 
 def run_parse_slice(ctx, want="both"):
